@@ -63,6 +63,8 @@ pub struct EpCfg {
     pub frame_read_rate: Option<(u16, u16, u32)>,
     pub disconnect_timeout_s: u16,
     // application structure
+    /// server roles: the combined (version sniffing) server in front of the v3 and v5 services
+    pub combined: bool,
     pub use_router: bool,
     /// control(Stop) goes through a gate (delayed completion)
     pub ctl_gated: bool,
@@ -104,6 +106,7 @@ impl Default for EpCfg {
             rd_hw: 16 * 1024 - 24,
             frame_read_rate: None,
             disconnect_timeout_s: 1,
+            combined: false,
             use_router: false,
             ctl_gated: false,
             client_keepalive_s: 0,
